@@ -223,9 +223,12 @@ func (server *Server) ZRange(conn *redis.Conn, key string, start int, stop int, 
 	if err != nil {
 		return nil, err
 	}
-	_, zset, err := db.GetZSetRecord(key)
+	_, zset, err := db.FindZSetRecord(key)
 	if err != nil {
 		return nil, err
+	}
+	if zset == nil {
+		zset = NewZSet()
 	}
 	mems := zset.Range(start, stop, opt)
 	arrayMsg := redis.NewArrayMessage()
@@ -244,9 +247,12 @@ func (server *Server) ZRangeByScore(conn *redis.Conn, key string, start float64,
 	if err != nil {
 		return nil, err
 	}
-	_, zset, err := db.GetZSetRecord(key)
+	_, zset, err := db.FindZSetRecord(key)
 	if err != nil {
 		return nil, err
+	}
+	if zset == nil {
+		zset = NewZSet()
 	}
 	mems := zset.RangeByScore(start, stop, opt)
 	arrayMsg := redis.NewArrayMessage()
@@ -265,9 +271,12 @@ func (server *Server) ZRem(conn *redis.Conn, key string, members []string) (*red
 	if err != nil {
 		return nil, err
 	}
-	_, zset, err := db.GetZSetRecord(key)
+	_, zset, err := db.FindZSetRecord(key)
 	if err != nil {
 		return nil, err
+	}
+	if zset == nil {
+		zset = NewZSet()
 	}
 	return redis.NewIntegerMessage(zset.Rem(members)), nil
 }
@@ -277,9 +286,12 @@ func (server *Server) ZScore(conn *redis.Conn, key string, member string) (*redi
 	if err != nil {
 		return nil, err
 	}
-	_, zset, err := db.GetZSetRecord(key)
+	_, zset, err := db.FindZSetRecord(key)
 	if err != nil {
 		return redis.NewNilMessage(), nil
+	}
+	if zset == nil {
+		zset = NewZSet()
 	}
 	score, ok := zset.Score(member)
 	if !ok {
